@@ -23,13 +23,14 @@ def conv(name, args):
     return "S %d" % args[0]
 
 
-def run_mq(run, exe, trace_cfg="TraceMessageQ.cfg", trace_mod="TraceMessageQ", cfgs=None, nrandom=None, tagp=""):
+def run_mq(run, exe, trace_cfg="TraceMessageQ.cfg", trace_mod="TraceMessageQ", cfgs=None, nrandom=None, tagp="", validate=True):
     # vacuity: with the counter read as unsigned the design must violate ExclusiveOwnership
-    res = tlc(run, "MessageQ", "MessageQ_unsigned.cfg", tag=tagp + "unsigned", coverage=False)
-    if res["violated"] != "ExclusiveOwnership":
-        raise Infra("vacuity check failed: unsigned counter did not violate ExclusiveOwnership (%s)" % res["violated"])
-    run.notes.append("vacuity: MessageQ_unsigned.cfg violates ExclusiveOwnership after %d steps, as it must" % len(res["cex"]))
-    run.tlc_runs[-1]["expected_violation"] = "ExclusiveOwnership"
+    if validate:
+        res = tlc(run, "MessageQ", "MessageQ_unsigned.cfg", tag=tagp + "unsigned", coverage=False)
+        if res["violated"] != "ExclusiveOwnership":
+            raise Infra("vacuity check failed: unsigned counter did not violate ExclusiveOwnership (%s)" % res["violated"])
+        run.notes.append("vacuity: MessageQ_unsigned.cfg violates ExclusiveOwnership after %d steps, as it must" % len(res["cex"]))
+        run.tlc_runs[-1]["expected_violation"] = "ExclusiveOwnership"
     traces = []
     for name, geo in (cfgs or (CFGS_THOROUGH if run.thorough() else CFGS_QUICK)):
         dot = run.path("mq-%s.dot" % name)
@@ -44,14 +45,16 @@ def run_mq(run, exe, trace_cfg="TraceMessageQ.cfg", trace_mod="TraceMessageQ", c
         run.extra.setdefault("graph_edges", {})[name] = total
         script = labels_to_script(paths, reset_line="Reset %d %d %d %d" % geo, conv=conv)
         tr = exec_script(run, exe, [], script, run.path("%scover-%s.ndjson" % (tagp, name)), "edge-cover-" + name)
-        check_trace(run, "edge-cover-" + name, trace_mod, trace_cfg, tr)
+        if validate:
+            check_trace(run, "edge-cover-" + name, trace_mod, trace_cfg, tr)
         traces.append(tr)
     sample_trace(run, traces[0], 10)
     n = nrandom or (4000 if run.thorough() else 600)
     gen = "".join("Gen %d %d %d %d %d %d\n" % (run.seed * 100 + i, n, d, s, m, irq)
                   for i, (d, s, m, irq) in enumerate([(3, 4, 3, 0), (3, 4, 3, 1), (8, 6, 2, 0), (32, 6, 8, 0), (2, 6, 2, 1)]))
     tr = exec_script(run, exe, [], gen, run.path(tagp + "random.ndjson"), "random-schedules")
-    check_trace(run, "random-schedules", trace_mod, trace_cfg, tr)
+    if validate:
+        check_trace(run, "random-schedules", trace_mod, trace_cfg, tr)
     traces.append(tr)
     return traces
 
